@@ -346,6 +346,112 @@ def e2e_worker(job):
     return acc
 
 
+# ------------------------------------------------------------------ end to end over every protocol version onto existing destinations
+def e2e_versions_worker(job):
+    """real client <-> real server with SFTP version v negotiated; the destination does not exist, or exists
+    and is shorter / equally long / longer than what is written (leftovers of an earlier transfer)"""
+    acc = core.Acc()
+    root = os.path.join(SCRATCH, 'e2v-%d' % os.getpid())
+    for v, op, old_len in job:
+        shutil.rmtree(root, ignore_errors=True)
+        os.makedirs(os.path.join(root, 'srv'))
+        os.makedirs(os.path.join(root, 'loc'))
+        src = content(3000, v)
+        old = content(old_len, 9)[:old_len] if old_len is not None else None
+        loop = P.fresh(0)
+        viol = []
+        try:
+            pair = P.Pair(loop, sopts=dict(sftp_factory=lambda chan: asyncssh.SFTPServer(chan, chroot=os.path.join(root, 'srv')),
+                                           sftp_version=v))
+            pair.handshake()
+            out = {}
+
+            def put(path, data):
+                if data is not None:
+                    with open(path, 'wb') as f:
+                        f.write(data)
+
+            async def body():
+                async with pair.c.start_sftp_client(sftp_version=v) as sftp:
+                    out['v'] = sftp.version
+                    sd, ld = os.path.join(root, 'srv'), os.path.join(root, 'loc')
+                    if op == 'put':
+                        put(os.path.join(ld, 'in'), src)
+                        put(os.path.join(sd, 'dst'), old)
+                        await sftp.put(os.path.join(ld, 'in'), 'dst')
+                        out['want'], out['got'] = src, open(os.path.join(sd, 'dst'), 'rb').read()
+                    elif op == 'get':
+                        put(os.path.join(sd, 'f'), src)
+                        put(os.path.join(ld, 'dst'), old)
+                        await sftp.get('f', os.path.join(ld, 'dst'))
+                        out['want'], out['got'] = src, open(os.path.join(ld, 'dst'), 'rb').read()
+                    elif op == 'copy':
+                        put(os.path.join(sd, 'f'), src)
+                        put(os.path.join(sd, 'dst'), old)
+                        await sftp.copy('f', 'dst')
+                        out['want'], out['got'] = src, open(os.path.join(sd, 'dst'), 'rb').read()
+                    elif op in ('open-wb', 'open-w'):
+                        put(os.path.join(sd, 'dst'), old)
+                        async with sftp.open('dst', 'wb' if op == 'open-wb' else 'w', encoding=None) as f:
+                            await f.write(src)
+                        out['want'], out['got'] = src, open(os.path.join(sd, 'dst'), 'rb').read()
+                    elif op == 'open-r+b':
+                        put(os.path.join(sd, 'dst'), old or b'')
+                        async with sftp.open('dst', 'r+b') as f:
+                            await f.write(src[:100], 50)
+                        base = bytearray(old or b'')
+                        if len(base) < 150:
+                            base.extend(bytes(150 - len(base)))
+                        base[50:150] = src[:100]
+                        out['want'], out['got'] = bytes(base), open(os.path.join(sd, 'dst'), 'rb').read()
+                    elif op == 'open-ab':
+                        put(os.path.join(sd, 'dst'), old)
+                        async with sftp.open('dst', 'ab') as f:
+                            await f.write(src[:100])
+                        out['want'], out['got'] = (old or b'') + src[:100], open(os.path.join(sd, 'dst'), 'rb').read()
+                    elif op == 'open-xb':
+                        put(os.path.join(sd, 'dst'), old)
+                        try:
+                            async with sftp.open('dst', 'xb') as f:
+                                await f.write(src[:100])
+                            out['want'] = src[:100] if old is None else b'<must refuse>'
+                        except asyncssh.SFTPError:
+                            out['want'] = old if old is not None else b'<must succeed>'
+                        out['got'] = open(os.path.join(sd, 'dst'), 'rb').read() if os.path.exists(os.path.join(sd, 'dst')) else None
+            t = loop.create_task(body())
+            loop.flush_all(horizon=2000000)
+            if not t.done():
+                viol.append(('hang', 'did not finish'))
+            elif t.exception() is not None:
+                viol.append(('e2e-failed', repr(t.exception())[:200]))
+            else:
+                if out.get('v') != v:
+                    viol.append(('version-not-negotiated', 'asked for %d, got %r' % (v, out.get('v'))))
+                if out['got'] != out['want']:
+                    g, w = out['got'] or b'', out['want']
+                    viol.append(('corrupt-result', 'SFTP v%d %s onto a destination of %s bytes: destination has %d bytes, expected %d; '
+                                 'equal prefix %d' % (v, op, old_len, len(g), len(w),
+                                                      next((i for i, (a, b) in enumerate(zip(g, w)) if a != b), min(len(g), len(w))))))
+            if loop.unretrieved():
+                viol.append(('loop-exception', repr(loop.exc_log[0].get('exception'))[:200]))
+        except Livelock as exc:
+            viol.append(('livelock', str(exc)))
+        finally:
+            P.done(loop)
+        acc.add(core.digest(('e2v', v, op, old_len)), transitions=1,
+                sample={'sftp_version': v, 'operation': op, 'existing_destination_bytes': old_len} if v == 6 and op == 'put' and old_len == 5000 else None)
+        for k, d in viol:
+            acc.violation('sftp:%s:v%d-%s' % (k, v, op), d, {'e2v': [v, op, old_len]})
+    shutil.rmtree(root, ignore_errors=True)
+    return acc
+
+
+def e2v_jobs():
+    cases = [(v, op, old) for v in (3, 4, 5, 6) for op in ('put', 'get', 'copy', 'open-wb', 'open-w', 'open-r+b', 'open-ab', 'open-xb')
+             for old in (None, 0, 100, 3000, 5000)]
+    return [cases[i::16] for i in range(16)]
+
+
 def e2e_jobs(tier):
     ns = [1, 2, 127, 128, 129] + ([257, 300] if tier == 'thorough' else [])
     return [(n, th, op, sp) for n in ns for th in (False, True) for op in ('get', 'put', 'copy')
@@ -367,6 +473,7 @@ def main(tier, seed):
     js = jobs(tier)
     acc = core.pmap(worker, core.rotate(js, seed), chunksize=4)
     acc.merge(core.pmap(e2e_worker, core.rotate(e2e_jobs(tier), seed)))
+    acc.merge(core.pmap(e2e_versions_worker, e2v_jobs()))
     shutil.rmtree(SCRATCH, ignore_errors=True)
     rule = ('operations get/put/copy (sparse and non-sparse), SFTPClientFile.read(size, offset) and write '
             '(r+b, wb, append) x block size {4,8} x max_requests {1,2,3} x sizes around block and request-window '
@@ -374,7 +481,9 @@ def main(tier, seed):
             'point the explorer answers any of the 3 oldest outstanding requests in full / 1 byte / half / '
             'FAILURE / PERMISSION_DENIED / premature EOF, or two at once under both asyncio.wait orders; '
             'deviation-bounded DFS; oracle = model file store; plus end-to-end get/put/copy of tmpfs sparse files '
-            'with 1..129 (thorough 300) page-sized data extents through a real asyncssh SFTP server')
+            'with 1..129 (thorough 300) page-sized data extents through a real asyncssh SFTP server; put/get/copy and '
+            'open in wb/w/r+b/ab/xb mode under SFTP versions 3-6 onto destinations that are absent, empty, shorter, '
+            'equal or longer')
     return core.finish(PROP, tier, seed, 'model_checking', acc, t0, rule,
                        {'jobs': len(js), 'deviation_bound': '2 (1 for block size 8)' if tier == 'quick' else 3},
                        assumptions=['SFTP v3 framing; the SSH layer below the SFTP client is replaced by an '
@@ -383,6 +492,10 @@ def main(tier, seed):
 
 def replay(rep):
     r = rep['replay']
+    if 'e2v' in r:
+        acc = e2e_versions_worker([tuple(r['e2v'])])
+        print(json.dumps(acc.violations, indent=1, default=repr))
+        return 1 if acc.violations else 0
     if 'e2e' in r:
         acc = e2e_worker(tuple(r['e2e']))
         print(json.dumps(acc.violations, indent=1, default=repr))
